@@ -5,6 +5,7 @@ import (
 	"go/constant"
 	"go/token"
 	"go/types"
+	"os"
 	"strings"
 
 	"golang.org/x/tools/go/ssa"
@@ -302,7 +303,7 @@ func shortCircuit(c *Ctx, tag string, f *ssa.Function, lhs, rhs *ssa.Call) {
 		} else {
 			// v2: the constant appended to the registers in this block
 			for _, in := range b.Instrs {
-				if call, ok := in.(*ssa.Call); ok && call.Call.StaticCallee() != nil && call.Call.StaticCallee().Name() == "ReturnAppend" {
+				if call, ok := in.(*ssa.Call); ok && call.Call.StaticCallee() != nil && fnName(call.Call.StaticCallee()) == "ReturnAppend" {
 					val = v2AppendedConst(call)
 				}
 			}
@@ -659,7 +660,7 @@ func arithRejectRule(c *Ctx, rule string) int {
 		cfg := &specCfg{MaxLoop: 2, MaxDepth: 3, MaxVisits: 200000}
 		cfg.Call = func(fn *ssa.Function, call *ssa.Call, nth int, args []sval) (sval, bool) {
 			if cal := call.Call.StaticCallee(); cal != nil {
-				switch cal.Name() {
+				switch fnName(cal) {
 				case "LnCol", "PositionRange":
 					return symv(cal.Name()), true
 				case "addParseErrf", "addParseErr":
@@ -676,7 +677,7 @@ func arithRejectRule(c *Ctx, rule string) int {
 		if ab != "" || len(outs) == 0 || len(na.Params) != 4 {
 			r.Undecided(rule, "newArithmeticExpr rejections", t.Pos(na.Pos()), "the constructor could not be specialised: "+ab)
 		} else {
-			divisor, dividend := pname(na.Params[2]), pname(na.Params[1])
+			divisor, dividend := pname(roleParam(na, 2)), pname(roleParam(na, 1))
 			seen := map[string]bool{}
 			for _, o := range outs {
 				if len(o.Vals) != 1 || !o.Vals[0].nil {
@@ -760,7 +761,7 @@ func foldSignSpec(c *Ctx, nu *ssa.Function, sub int64) int {
 				Paths: map[string]sval{opN + ".Typ": constv(constant.MakeInt64(op)), rN + ".NodeType": constv(constant.MakeInt64(k))}}
 			cfg.Call = func(fn *ssa.Function, call *ssa.Call, nth int, args []sval) (sval, bool) {
 				if cal := call.Call.StaticCallee(); cal != nil {
-					switch cal.Name() {
+					switch fnName(cal) {
 					case "LnCol", "PositionRange":
 						return symv(cal.Name()), true
 					case kind: // the accessor of the literal: a projection of the node
@@ -777,6 +778,9 @@ func foldSignSpec(c *Ctx, nu *ssa.Function, sub int64) int {
 				continue
 			}
 			for _, o := range outs {
+				if os.Getenv("PLVERIF_DEBUG") == "fold" {
+					fmt.Fprintln(os.Stderr, "FOLDSIGN", kind, op, o.Vals, o.Cond)
+				}
 				if len(o.Vals) != 1 || o.Vals[0].nil {
 					continue // a nil operand
 				}
